@@ -3,6 +3,7 @@ package c15
 import (
 	"net"
 	"os"
+	"sync/atomic"
 	"time"
 
 	"github.com/scrapli/scrapligo/transport"
@@ -66,4 +67,46 @@ func runMem(c Case) ev.Verdict {
 	return judge(c, conn.written, gotData)
 }
 
-var memProp = &ev.Prop[Case]{ID: "C15", Name: "mem", Gen: gen, Run: runMem}
+var hookUnconfirmed atomic.Int64
+
+// runMemConfirmed: this tier reaches the negotiation loop through an internal method (the verif
+// hook), i.e. it assumes how Open sets the transport up. A failure here therefore only counts when
+// the same opening also fails over a real loopback connection, through Open itself; otherwise the
+// hook cannot drive this implementation and the case says nothing.
+func runMemConfirmed(c Case) (v ev.Verdict) {
+	defer func() {
+		if r := recover(); r != nil {
+			v = ev.Fail("panic: %v", r)
+		}
+
+		if v.OK {
+			return
+		}
+
+		if hookUnconfirmed.Load() >= 20 {
+			// the hook evidently cannot drive this implementation: stop paying for confirmations
+			v = ev.Verdict{OK: true, Infeasible: true, Classes: []string{"in-memory-failure-not-confirmed-over-tcp"}, Note: v.Msg}
+
+			return
+		}
+
+		c2 := c
+		c2.GapsUS = nil
+
+		if len(c2.Splits) == 0 {
+			c2.Splits = []int{0}
+		}
+
+		if tv := runTCP(c2); tv.OK {
+			hookUnconfirmed.Add(1)
+
+			v = ev.Verdict{OK: true, Infeasible: true, Classes: []string{"in-memory-failure-not-confirmed-over-tcp"}, Note: v.Msg}
+		} else {
+			v.Msg += " | over a real connection: " + tv.Msg
+		}
+	}()
+
+	return runMem(c)
+}
+
+var memProp = &ev.Prop[Case]{ID: "C15", Name: "mem", Gen: gen, Run: runMemConfirmed}
